@@ -92,16 +92,22 @@ func (cs *c01Case) mText(md c01MDef) string {
 // the text that the enforcer compiles for matcher definition md (what Model.AddDef stores)
 func (cs *c01Case) mStored(md c01MDef) string {
 	if md.raw != "" {
-		s := c01EscapeRef(md.raw)
-		if i := strings.Index(s, "#"); i >= 0 {
-			s = strings.TrimSpace(s[:i])
-		}
+		s := c01Prep(md.raw)
 		if strings.Contains(s, "in") {
 			s = strings.NewReplacer("[", "(", "]", ")").Replace(s)
 		}
 		return s
 	}
 	return c01Print(md.ast, c01UnderscoreStyle(md.st))
+}
+
+// RemoveComments(EscapeAssertion(text)), written independently of casbin
+func c01Prep(text string) string {
+	s := c01EscapeRef(text)
+	if i := strings.Index(s, "#"); i >= 0 {
+		s = strings.TrimSpace(s[:i])
+	}
+	return s
 }
 
 func c01ReqSexp(rq c01Req) string {
@@ -221,18 +227,12 @@ func c01Run(c *Ctx, cs *c01Case) {
 		addParse(pe.text, pe.ast)
 	}
 	if cs.wmAst != nil {
-		s := c01EscapeRef(cs.wm)
-		if i := strings.Index(s, "#"); i >= 0 {
-			s = strings.TrimSpace(s[:i])
-		}
-		addParse(s, cs.wmAst)
+		addParse(c01Prep(cs.wm), cs.wmAst)
 	}
 
 	// ----- run the implementation
 	type obs struct{ step, val string }
 	var out []obs
-	find := func(list interface{}, key string) int { return -1 }
-	_ = find
 	rdef := func(key string) []string {
 		for _, d := range cs.r {
 			if d.key == key {
@@ -317,7 +317,7 @@ func c01Run(c *Ctx, cs *c01Case) {
 				}
 				// the custom matcher may evaluate other oracle calls
 				if cs.wmAst != nil && cs.wmAst != md.ast {
-					s := c01EscapeRef(cs.wm)
+					s := c01Prep(cs.wm)
 					save := rf.hasEval
 					rf.hasEval = strings.Contains(s, "eval(")
 					rf.decide(cs.wmAst, strings.Contains(s, pd.key+"_"), et, eftIdx, pd.rules, rq.vals)
@@ -610,10 +610,9 @@ func c01SubRules(r *rand.Rand, vc *c01Vocab, n int) (texts []string, ents []c01P
 			inner := vc.genBool(r, 1)
 			st := c01Style{dot: true}
 			iu := c01Print(inner, c01Style{})
-			if strings.ContainsAny(iu, "\"'") {
-				continue
-			}
-			add("eval('"+c01Print(inner, st)+"')", "eval('"+iu+"')", c01Call("eval", c01Str(iu)))
+			outerD := c01Print(c01Call("eval", c01Str(c01Print(inner, st))), c01Style{sq: true})
+			outerU := c01Print(c01Call("eval", c01Str(iu)), c01Style{sq: true})
+			add(outerD, outerU, c01Call("eval", c01Str(iu)))
 			ents = append(ents, c01ParseEnt{iu, inner})
 		case 2:
 			add("r.sub.Age >", "", nil) // does not parse
@@ -908,10 +907,14 @@ func c01Specials(c *Ctx, byName map[string]*c01Family, next func(string) string)
 		// eval() spelled in a matcher whose policy has no sub-rule column
 		cs = c01Build(r, next("eval-plain"), acl, c01And(c01Call("eval", c01Str("r_sub == p_sub")), c01Eq(c01V_("r_obj"), c01V_("p_obj"))), "ao", 3, 0)
 		cs.extra = []c01ParseEnt{{"r_sub == p_sub", c01Eq(c01V_("r_sub"), c01V_("p_sub"))}}
+		cs.m[0].st.sq = false
+		cs.wm = c01Print(cs.m[0].ast, c01Style{})
 		c01Run(c, cs)
 		// eval with an empty policy is an error; a policy-free eval matcher with rules present is evaluated once
 		cs = c01Build(r, next("eval-empty"), acl, c01Call("eval", c01Str("r_sub == 'alice'")), "ao", round%2*2, 0)
 		cs.extra = []c01ParseEnt{{"r_sub == 'alice'", c01Eq(c01V_("r_sub"), c01Str("alice"))}}
+		cs.m[0].st.sq = false
+		cs.wm = c01Print(cs.m[0].ast, c01Style{})
 		c01Run(c, cs)
 
 		// a custom matcher that differs from the model's, one that does not parse, one with a comment
